@@ -40,7 +40,7 @@ Record probe := {
                             pr_bm is the bitmap of that matcher *)
 
 Definition mdump := (list (N * N * bool * N) * list (N * N * list string) * list N)%type.
-   (* match-sets (type, value, not, upstream); domain sets (key 1..4, RuleIndex, domains); sizes of the ip sets *)
+   (* match-sets (type, value, not, upstream); domain sets (key 1..4, RuleIndex, domains); one 0 per ip set *)
 
 Record mcase := {
   mc_cfg : config;
@@ -54,7 +54,7 @@ Definition key_code (k : dkind) : N := match k with DFull => 1 | DSuffix => 2 | 
 Definition dump_of (b : builder) : mdump :=
   (map (fun m => (m_type m, m_value m, m_not m, m_up m)) (b_rules b),
    map (fun d => (key_code (ds_key d), ds_index d, ds_domains d)) (b_domsets b),
-   map (fun ps => N.of_nat (List.length ps)) (b_ipsets b)).
+   map (fun _ => 0) (b_ipsets b)).
 
 Definition quad_eqb (a b : N * N * bool * N) : bool :=
   let '(t1, v1, n1, u1) := a in let '(t2, v2, n2, u2) := b in (t1 =? t2) && (v1 =? v2) && Bool.eqb n1 n2 && (u1 =? u2).
